@@ -161,13 +161,26 @@ Definition dump_eqb (a b : list (bytes * list bytes)) : bool :=
    bytes that does not start with a space, parses to a well-formed record and is accepted by the
    accumulator; the range points are well-formed records whose addresses the library prints and
    parses back *)
+(* The file of a case is the list of lines as bufio.ScanLines delivers them (one trailing CR dropped by
+   lib/props/c09.py).  A line that STILL ends in CR is outside the guard, and that cannot be lifted:
+   the preprocessor writes it with its CR, and whoever reads the preprocessed text drops that CR
+   (observed on the unchanged code: 'cr.example.org,abc CR CR compiles to TXT abc CR, its
+   preprocessed form to TXT abc).
+   Third disjunct: any other line the preprocessor writes through as it is (first byte neither % nor Z)
+   and the compiler, after its TrimLeft of blanks, skips or accepts without feeding the accumulator:
+   lines that begin with blanks, white-space lines, lines whose last field ends in white space. *)
+Definition ends_cr (l : bytes) : bool := match rev l with c :: _ => c =? 13 | [] => false end.
+
 Definition wf_file_lineb (o : toracles) (serial : N) (l : bytes) : bool :=
-  is_ignored l ||
-  ((2 <=? length l)%nat && negb (nth 0 l 0 =? 32) &&
-   match parse_line o serial l with
-   | Ok r => wf_recordb o r && match acc_update r with Ok _ => true | Err _ => false end
-   | Err _ => false
-   end).
+  negb (ends_cr l) &&
+  (is_ignored l ||
+   ((2 <=? length l)%nat && negb (nth 0 l 0 =? 32) &&
+    match parse_line o serial l with
+    | Ok r => wf_recordb o r && match acc_update r with Ok _ => true | Err _ => false end
+    | Err _ => false
+    end) ||
+   (negb (nth 0 l 0 =? 37) && negb (nth 0 l 0 =? 90) &&
+    match compile_line o false serial l with Ok (_, []) => true | _ => false end)).
 
 Definition rp_okb (o : toracles) (r : record) : bool :=
   wf_recordb o r &&
